@@ -17,13 +17,21 @@ REGISTRATION = {
             "allocation above the budget, for every byte string, array limit and budget (decode_safe_tree, unconditional); "
             "the same under explicit decidable guards for any subset of validations (decode_safe_partial), with a "
             "kernel-checked witness file for every validation upstream's pinned code lacks; termination by construction. "
-            "Which validations the tree has is not asserted: outcome classes of model(Guards.tree) and real decoder are "
-            "compared on thousands of mutated/truncated/crafted files per run in a memory-limited worker process, with a "
-            "directed search (length fields near 2^61..2^64) around any disagreement.",
+            "create's loop over several models in one upload (server/create.go ggufLayers) is modelled on top, with "
+            "non-termination as an explicit outcome: it terminates (every successful decode ends after the position it "
+            "started at: decodeFrom_progress) and is safe for every byte string (create_terminates_tree, create_safe_tree); "
+            "upstream's pinned decoder has a 57-byte witness on which create never answers. "
+            "Which validations the tree has is not asserted: outcome classes (ok+summary / io.EOF / io.ErrUnexpectedEOF / "
+            "other error / panic site / allocation) of model(Guards.tree) and real decoder are compared on thousands of "
+            "mutated/truncated/crafted files per run in a memory-limited worker process, with a directed search (length "
+            "fields near 2^61..2^64) around any disagreement; uploads (crafted, mutated, several models back to back, cut "
+            "or followed by junk) go through the real POST /api/blobs + /api/create + /api/show in child processes and the "
+            "answer (error / layer sizes / never answers) is compared with the model.",
     "design_ref": "DESIGN.md §5 C10",
     "note": COMMON_NOTE + "Allocation is observed as TotalAlloc delta / fatal out-of-memory of the worker under RLIMIT_AS "
             "and compared as a class (a request between budget and 16x budget is accepted either way). The API-level "
-            "clause (create/show keep serving) is covered by the crafted-file API driver, not by a theorem. Modelled, "
+            "clause is a theorem for create's decoding loop (ggufLayers); the rest of CreateHandler/ShowHandler (gin, "
+            "layer files, template detection) is covered by the API driver only. Modelled, "
             "not verified: bufio/bytes/io library behaviour, the Go allocator.",
 }
 
@@ -32,6 +40,11 @@ THEOREMS = [
     "OllamaVerif.C10.decode_safe_tree",
     "OllamaVerif.C10.decode_safe_hardened",
     "OllamaVerif.C10.decode_safe_partial",
+    "OllamaVerif.C10.create_terminates_tree",
+    "OllamaVerif.C10.create_safe_tree",
+    "OllamaVerif.C10.create_layers_within",
+    "OllamaVerif.Gguf.decodeFrom_progress",
+    "OllamaVerif.C10.witness_pinned_create_never_answers",
     "OllamaVerif.C10.witness_alignment_zero",
     "OllamaVerif.C10.witness_alignment_type",
     "OllamaVerif.C10.witness_string_negative",
@@ -195,6 +208,9 @@ def run(ctx):
             ctx.violation("driver-failed", "api", out[-1500:], no_input=True)
         ctx.read_stats(apidir)
         failures += ctx.l2(apidir)
+        # L1 at the API level: what POST /api/create makes of each uploaded file (error / never answers / one layer
+        # per model found back to back, with its byte size) vs the model of server/create.go ggufLayers
+        ctx.l1(apidir, label="L1-create")
     ctx.classify(failures)
     if ctx.thorough:
         ctx.leanchecker(MODULES)
